@@ -359,6 +359,26 @@ def _():
             ('combine', [bs, mv], ForAll([x], Select(T.Eclo(_V_, _e_, M), x) == z3.Exists([y, q], And(Select(_S1, q), Select(Select(_V_, T.mkKey2(q, _a_)), y), Select(T.Eclo(_V_, _e_, T.single(y)), x)))))]
 
 
+@proof('nfax', 'Nhat-step-pw')
+def _():
+    q, x, y, y0 = Consts('q_ x_ y_ y0_', Atom); w = Const('w_', Word)
+    Nh = T.Nhat(_V_, _e_, q, w); lhs = Select(T.Nhat(_V_, _e_, q, Word.snoc(w, _a_)), y)
+    pw = ForAll([y], Select(T.Eclo(_V_, _e_, T.move(_V_, Nh, _a_)), y) == z3.Exists([y0, x], And(Select(Nh, x), Select(Select(_V_, T.mkKey2(x, _a_)), y0), Select(T.Eclo(_V_, _e_, T.single(y0)), y))))     # eclo-move-pw
+    bs = ForAll([x, y], Select(T.Eclo(_V_, _e_, Select(_V_, T.mkKey2(x, _a_))), y) == z3.Exists([y0], And(Select(Select(_V_, T.mkKey2(x, _a_)), y0), Select(T.Eclo(_V_, _e_, T.single(y0)), y))))            # Eclo-by-singletons
+    rhs = z3.Exists([x], And(Select(Nh, x), Select(T.Eclo(_V_, _e_, Select(_V_, T.mkKey2(x, _a_))), y)))
+    return [('move-closure', [], pw), ('by-singletons', [], bs), ('fwd', [pw, bs, lhs], rhs), ('bwd', [pw, bs, rhs], lhs),
+            ('both', [Implies(lhs, rhs), Implies(rhs, lhs)], lhs == rhs)]
+
+
+@proof('nfax', 'Nhat-closed')
+def _():
+    q, x, y = Consts('q_ x_ y_', Atom); w = Const('w_', Word)
+    Nh = T.Nhat(_V_, _e_, q, w)
+    closed = ('closed', [], T.Eclo(_V_, _e_, Nh) == Nh)          # Nhat is NS of a singleton (Nhat-is-NS), which is closed (NS-closed)
+    mono = ('mono', [Select(Nh, x), T.Eclo_least(_V_, _e_, T.single(x), T.Eclo(_V_, _e_, Nh))], T._sub(T.Eclo(_V_, _e_, T.single(x)), T.Eclo(_V_, _e_, Nh)))
+    return [closed, mono, ('final', [closed[2], Implies(Select(Nh, x), mono[2]), Select(Nh, x), Select(T.Eclo(_V_, _e_, T.single(x)), y)], Select(Nh, y))]
+
+
 @proof('nfax', 'NS-closed')
 def _(): return word_ind(lambda w: T.Eclo(_V_, _e_, T.NS(_V_, _e_, _S1, w)) == T.NS(_V_, _e_, _S1, w))
 
